@@ -250,6 +250,13 @@ def r5(tree, rep):
             w = resolve_local(fn, v.args[1])
             good = k is not None and k > 0 and isinstance(w, ast.Call) and dotted(w.func) == "there_can_be_only_one" \
                 and isinstance(w.args[0], ast.Name) and w.args[0].id == "contenders"
+            if good:
+                # the overall deadline is of the order of the per-connection negotiation timeout (at least one of them, so a slow but
+                # live negotiation can finish; at most ten, so "by its deadline" still means minutes, not an effectively endless wait)
+                rep.check("C07.R5", "the deadline around the race evaluates to %s s: between one and ten per-connection timeouts (TIMEOUT = %s s)" % (k, TIMEOUT),
+                          TIMEOUT <= k <= 10 * TIMEOUT, site(v, TR), key="C07.R5:_connect:deadline-magnitude",
+                          what="the deadline around the whole race evaluates to %s seconds (per-connection timeout: %s s): connect() effectively "
+                               "hangs when nothing can be negotiated, or gives up before a single negotiation may finish" % (k, TIMEOUT))
         ok = ok and good
     rep.check("C07.R5", "Common._connect returns only _not_forever(<deadline>, there_can_be_only_one(contenders))", ok, site(fn, TR),
               key="C07.R5:_connect:deadline", what="connect() is no longer bounded by a deadline around the whole race (it can hang)")
